@@ -51,6 +51,21 @@ func (c *caseC19) req(s stepC19) *wire.Req {
 	return &wire.Req{Op: "run", Text: p.Text, Mode: s.Mode, Monitor: s.Monitor, Procs: 4, YieldSeed: s.Yield, TimeoutMs: 10000, PostAPI: true}
 }
 
+// errKey keeps the part of a type error that is a function of the program: the declaration it
+// is reported in. The detail after it is not compared: Grits builds several messages by iterating
+// over Go maps (which dependency breaks independence, which names are left in the context, which
+// labels are not matched), so their wording legitimately differs from run to run.
+func errKey(e string) string {
+	if i := strings.Index(e, ";"); i > 0 && strings.HasPrefix(e, "(") {
+		return e[:i]
+	}
+	f := strings.Fields(e)
+	if len(f) > 4 {
+		f = f[:4]
+	}
+	return strings.Join(f, " ")
+}
+
 // observable part of a response
 func observe(op string, r *wire.Resp) string {
 	var sb strings.Builder
@@ -61,7 +76,7 @@ func observe(op string, r *wire.Resp) string {
 		}
 		return sb.String()
 	}
-	fmt.Fprintf(&sb, " check_ok=%v check_err=%q", r.CheckOK, r.CheckErr)
+	fmt.Fprintf(&sb, " check_ok=%v check_err_at=%q", r.CheckOK, errKey(r.CheckErr))
 	if op == "run" && r.Ran {
 		p := append([]string{}, r.Prints...)
 		sort.Strings(p)
